@@ -63,12 +63,12 @@ def raw_equal(a, b, tag, viol, **kw):
 def sweep_case(draw, tier):
     import os
     ncpu = os.cpu_count() or 2
-    N = draw(gens.loguniform_int(3000, 20000 if tier == "quick" else 200000))
+    N = draw(gens.loguniform_int(3000, 20000 if tier == "quick" else 60000))
     mode = draw(st.sampled_from(["auto", "csd", "csd"]))
     cfg = draw(gens.analysis_config(N, backends=("numba",), Jmax=30, Kmax=60))
     cfg["olap"] = draw(st.sampled_from([0.5, 0.75, 0.9, "default"]))
     cfg["Lmin"] = draw(st.sampled_from([1, 8, 32]))
-    nsched = 4 if tier == "quick" else 10
+    nsched = 4 if tier == "quick" else 6
     scheds = [[draw(st.integers(2, ncpu)), draw(st.sampled_from([0, 1, 2, 3, 8, 64]))] for _ in range(nsched)]
     return {"N": N, "mode": mode, "cfg": cfg, "fs": draw(st.sampled_from([1.0, 100.0])), "scheds": scheds,
             "rec": draw(gens.pair(N, rel_kinds=["indep", "partial", "delay"]) if mode == "csd" else gens.record(N, kinds=["noise", "ar1", "sines"])),
@@ -315,7 +315,7 @@ class AnalyzerHistory(TracedMachine):
 
 
 PARTS = [
-    Part("sweep", sweep_case, oracle_sweep, n_quick=15, n_thorough=80, shrink=False),
+    Part("sweep", sweep_case, oracle_sweep, n_quick=15, n_thorough=30, shrink=False),
     Part("permutations", perm_case, oracle_perm, n_quick=80, n_thorough=800),
     MachinePart("history", AnalyzerHistory, n_quick=50, n_thorough=300, steps=40),
 ]
